@@ -17,7 +17,7 @@ def run(prop, evidence_path, sample=40):
     try:
         p = subprocess.run([sys.executable, os.path.join(VERIF, "tools", "mutsweep.py"), "--prop", prop, "--sample", str(sample),
                             "--kinds", "rel,relflip,bool,neg,dropcheck,dropassign,dropcall,iffalse", "--jobs", "12", "--quiet", "--out", out],
-                           stdout=subprocess.PIPE, stderr=subprocess.STDOUT, timeout=1500)
+                           stdout=subprocess.PIPE, stderr=subprocess.STDOUT, timeout=700)
         rs = json.load(open(out))
     except Exception as e:      # informational: never fails the check
         print("SWEEP property=%s skipped (%s)" % (prop, type(e).__name__))
